@@ -366,6 +366,9 @@ pub fn common_faults(g: &mut Gen, s: &mut Scenario) {
     if g.rng.chance(1, 2) {
         s.post_write = true;
     }
+    if g.rng.chance(1, 3) {
+        s.post_load = true;
+    }
     if s.trap.is_none() && g.rng.chance(3, 10) {
         let mut probes = vec![rt_probe::CLAIMED_BEFORE_PUBLISH, rt_probe::CLAIMED_BEFORE_PUBLISH];
         if s.slow_clone > 0 {
@@ -481,10 +484,15 @@ fn quota_family(seed: u64, fut: bool) -> (Scenario, SchedCfg) {
         s.threads.push(ThreadSpec { handles: vec![h], prog, spawned: false });
     }
     let mut cidx = 0u8;
-    for st in &streams {
+    // one of several streams may be abandoned: its consumers take only part of its values
+    // (possibly none) and then drop their handles, so that the stream is removed while it is
+    // the one that keeps the ring full (parked producers must be woken by the removal)
+    let abandoned: Option<usize> = if hold && streams.len() >= 2 && g.rng.chance(1, 3) { Some(g.rng.below(streams.len() as u64) as usize) } else { None };
+    for (si, st) in streams.iter().enumerate() {
         // split the stream's values among its consumers as quotas
         let k = st.len() as u64;
-        let mut left = total_vals;
+        let is_abandoned = abandoned == Some(si);
+        let mut left = if is_abandoned { g.rng.range(0, total_vals - 1) } else { total_vals };
         let single = k == 1;
         for (j, &h) in st.iter().enumerate() {
             let quota = if hold {
@@ -519,7 +527,7 @@ fn quota_family(seed: u64, fut: bool) -> (Scenario, SchedCfg) {
                 }
                 // a consumer that leaves after its share (iterators have dropped it already)
                 if !matches!(api, RecvApi::Iter | RecvApi::IterWith) || quota == 0 {
-                    if g.rng.chance(1, 2) {
+                    if is_abandoned || g.rng.chance(1, 2) {
                         prog.push(Op::DropRecv { h });
                     }
                 }
@@ -970,6 +978,7 @@ pub mod rt_probe {
     pub const CLAIMED_BEFORE_PUBLISH: u32 = 11;
     pub const CLONE_MID: u32 = 15;
     pub const VIEW_MID: u32 = 16;
+    pub const RAW_DEREF: u32 = 24;
 }
 
 /// `removal` (C11): a slow or idle stream drives the queue to Full; its handles are then
@@ -1384,6 +1393,28 @@ fn reclaim2(seed: u64, counting: bool, solo: bool) -> (Scenario, SchedCfg) {
         });
     }
     s.probe = false;
+    if !counting && !solo && bc && g.rng.chance(1, 2) {
+        // a leaver: a thread that owns nothing but the sole handle of one more stream and
+        // lets go of it while the churn is running; stalled for a long time right before one
+        // of the raw dereferences of the stream list inside its unsubscribe
+        let l = g.h();
+        s.setup.push(Op::AddStream { h: 1, new: l });
+        let mut prog = vec![Op::Yield(g.rng.range(0, 30) as u8)];
+        if g.rng.chance(1, 2) {
+            prog.push(Op::Consume { h: l, api: RecvApi::TryRecv, quota: 1, max_empty: 0, after_end: 0 });
+        }
+        prog.push(if g.rng.chance(1, 2) { Op::DropRecv { h: l } } else { Op::Unsub { h: l } });
+        s.threads.push(ThreadSpec { handles: vec![l], prog, spawned: false });
+        if g.rng.chance(2, 3) {
+            s.trap = Some((rt_probe::RAW_DEREF, g.rng.below(3) as u32, g.rng.range(300, 6000) as u32));
+            s.trap_thread = Some(s.threads.len() as u32 - 1);
+        }
+    }
+    if s.trap.is_none() && !counting && !solo && g.rng.chance(1, 3) {
+        // a long stall right before a raw dereference of the stream list (between loading
+        // the pointer and reading through it): long enough for a whole reclamation cycle
+        s.trap = Some((rt_probe::RAW_DEREF, g.rng.below(60) as u32, g.rng.range(100, 4000) as u32));
+    }
     common_faults(&mut g, &mut s);
     if counting {
         // a stalled thread keeps a stale epoch token and legitimately holds reclamation back
@@ -1429,20 +1460,52 @@ pub fn seq_churn(seed: u64, long_ok: bool) -> (Scenario, SchedCfg) {
         calls.push(C::CloneRecv { h: 1, new: 4 });
         calls.push(C::DropRecv { h: 4 });
     }
+    // one side gone for good before the cycles start: the surviving side keeps operating
+    // (every call reports Disconnected) and keeps cloning / dropping handles
+    let side_gone = match g.rng.below(8) {
+        0 => 1, // no receiver left
+        1 => 2, // no sender left
+        _ => 0,
+    };
+    if side_gone == 1 {
+        calls.push(C::TrySend { h: 0 });
+        calls.push(C::DropRecv { h: 1 });
+        if second_stream {
+            calls.push(C::DropRecv { h: 3 });
+        }
+    } else if side_gone == 2 {
+        calls.push(C::TrySend { h: 0 });
+        if two_senders {
+            calls.push(C::DropSender { h: 2 });
+        }
+        calls.push(C::DropSender { h: 0 });
+    }
     let mut body = Vec::new();
     // every fixed handle operates in every cycle
-    body.push(C::TrySend { h: 0 });
-    if two_senders {
-        body.push(C::TrySend { h: 2 });
+    if side_gone != 2 {
+        body.push(C::TrySend { h: 0 });
+        if two_senders {
+            body.push(C::TrySend { h: 2 });
+        }
     }
-    body.push(C::TryRecv { h: 1 });
-    body.push(C::TryRecv { h: 1 });
-    if second_stream {
-        body.push(C::TryRecv { h: 3 });
-        body.push(C::TryRecv { h: 3 });
+    if side_gone != 1 {
+        body.push(C::TryRecv { h: 1 });
+        body.push(C::TryRecv { h: 1 });
+        if second_stream {
+            body.push(C::TryRecv { h: 3 });
+            body.push(C::TryRecv { h: 3 });
+        }
     }
     // churn
-    let kinds = g.rng.range(1, 7);
+    let mut kinds = g.rng.range(1, 7);
+    if side_gone == 1 {
+        kinds = 4;
+    } else if side_gone == 2 {
+        kinds &= 3;
+        if kinds == 0 || (!bc && kinds == 2) {
+            kinds = 1;
+        }
+    }
     if kinds & 1 != 0 {
         body.push(C::CloneRecv { h: 1, new: 10 });
         body.push(if g.rng.chance(1, 2) { C::DropRecv { h: 10 } } else { C::Unsub { h: 10 } });
@@ -1455,7 +1518,7 @@ pub fn seq_churn(seed: u64, long_ok: bool) -> (Scenario, SchedCfg) {
         body.push(C::CloneSender { h: 0, new: 12 });
         body.push(C::DropSender { h: 12 });
     }
-    if !fut && g.rng.chance(1, 2) && !(early_drop && false) {
+    if !fut && g.rng.chance(1, 2) && side_gone != 1 {
         body.push(C::IntoSingle { h: 1 });
         body.push(C::IntoMulti { h: 1 });
     }
@@ -1478,6 +1541,11 @@ pub fn seq_churn(seed: u64, long_ok: bool) -> (Scenario, SchedCfg) {
     common_faults(&mut g, &mut s);
     s.tags = common_tags(&s);
     s.tags.push(if early_drop { "early_drop_of_non_last_handle".into() } else { "no_early_drop".into() });
+    s.tags.push(match side_gone {
+        1 => "side_gone=receivers".into(),
+        2 => "side_gone=senders".into(),
+        _ => "side_gone=none".into(),
+    });
     let mut c = SchedCfg::new(g.rng.next(), Strategy::Uniform);
     c.livelock_window = 100_000;
     c.max_steps = 400_000_000;
